@@ -182,3 +182,31 @@ Proof.
   intros Hs Hf. rewrite (ImpProofsB.imp_Translate fuel dst s Hs Hf), TranslateProofs.translate_exact.
   destruct (SeqSpec.std_translate s); reflexivity.
 Qed.
+
+(* ---- smtext: ReadNCBI on any layout of a table ---------------------------------------------------------------- *)
+From Bio.Spec Require SmtextSpec.
+From Bio.Proofs Require SmtextProofs SmtextProofsB SmtextProofsC ImpProofsO.
+
+Lemma line_items_tokens s :
+  Forall (fun p => Smtext.too_long p = false) (lines_tail (split_on LF s)) ->
+  Smtext.line_items s = map (@Rec bytes) (scan_tokens s).
+Proof.
+  unfold Smtext.line_items, scan_tokens. intros H. rewrite map_map. apply map_ext_in.
+  intros p Hp. rewrite Forall_forall in H. rewrite (H p Hp). reflexivity.
+Qed.
+
+Theorem read_ncbi_exact_src o T L fuel cur :
+  SmtextSpec.rect T -> SmtextSpec.TableLayout o T L ->
+  Forall (fun p => Smtext.too_long p = false) (lines_tail (split_on LF L)) ->
+  (length (scan_tokens L) < fuel)%nat ->
+  exists rd, imp_smtext_ReadNCBI fuel o (Scanner cur (scan_tokens L) 0 false)
+             = Ret (rd, (SmtextSpec.matrix_of T, 0)).
+Proof.
+  intros Hr Hl Hlong Hf.
+  pose proof (SmtextProofsB.read_ncbi_exact o T L Hr Hl) as E. unfold Smtext.read_ncbi in E.
+  rewrite (line_items_tokens L Hlong) in E.
+  pose proof (ImpProofsO.imp_ReadNCBI o fuel cur (scan_tokens L) 0 Hf) as H.
+  destruct (fold_left (Smtext.read_step o) (map (@Rec bytes) (scan_tokens L)) (Ok ([], []))) as [[m cs]| |];
+    try discriminate.
+  injection E as ->. cbn [ImpProofsO.nc_agrees Z.eqb] in H. exact H.
+Qed.
